@@ -1,6 +1,8 @@
 import NTV.Proofs.Lemmas.InvProofs
 import NTV.Proofs.Lemmas.KronFull
 import NTV.Proofs.Lemmas.ElemProofs
+import NTV.Proofs.Lemmas.SieveProofs
+import NTV.Proofs.Lemmas.PrimesIter
 /-! # C19 — property theorems (modular inverse, perfect power, Kronecker symbol, primes)
 Only property-level statements live here; helper lemmas are in `NTV.Proofs.Lemmas.*`. -/
 namespace NTV.C19
@@ -81,5 +83,17 @@ theorem kronecker_zero_modulus (a : Int) : NTV.Kron.kronecker a 0 = if a = 1 ∨
 theorem kronecker_decomposition (b : Int) (hb : b ≠ 0) :
     ∃ (s : Int) (v : Nat) (b' : Nat), (s = 1 ∨ s = -1) ∧ b' % 2 = 1 ∧ b = s * 2 ^ v * (b' : Int) :=
   NTV.Kron.decomp_exists b hb
+
+/-- the sieve returns exactly the primes ≤ bound in increasing order, for every bound -/
+theorem sieve_full (bound : Nat) :
+    NTV.Elem.primes bound = (List.range (bound + 1)).filter (fun x => decide x.Prime) :=
+  NTV.Elem.primes_spec bound
+
+/-- the iterator: from any state now ≥ 1 the next value is the least prime ≥ now and the state becomes
+p + 1; started at 2 it therefore enumerates all primes in increasing order -/
+theorem iterator_full (cnt now : Nat) (hnow : 1 ≤ now) :
+    ∃ p, p.Prime ∧ now ≤ p ∧ (∀ q, q.Prime → now ≤ q → p ≤ q) ∧
+      NTV.Elem.primesIter (cnt + 1) now = p :: NTV.Elem.primesIter cnt (p + 1) :=
+  NTV.Elem.primesIter_step cnt now hnow
 
 end NTV.C19
